@@ -11,6 +11,8 @@ seeds = sorted(p.name for p in (VERIF / SEED_DIR).iterdir() if (p / "patch.diff"
 if len(sys.argv) > 1:
     seeds = [s for s in seeds if any(s.startswith(a) for a in sys.argv[1:])]
 built = sorted(p.stem.upper() for p in (VERIF / "vstat/rules").glob("c[0-9][0-9].py"))
+if os.environ.get("PROPS"):  # restrict the run to some properties (a quick regression of the rules that were changed)
+    built = [p_ for p_ in built if p_ in os.environ["PROPS"].split()]
 # the checks run from a snapshot of the checker, so that it can be edited while a matrix is running
 SNAP = Path(tempfile.mkdtemp(prefix="vstat_snap_"))
 shutil.copytree(VERIF / "vstat", SNAP / "vstat", ignore=shutil.ignore_patterns("__pycache__"))
